@@ -255,6 +255,10 @@ func (fr *Frame) loopHead(b *ssa.BasicBlock) {
 		if ph.Comment == "rangeindex" {
 			c.assert(implies(fr.pc, "(and (>= "+fr.vals[ph]+" (- 1)) (< "+fr.vals[ph]+" 9223372036854775807))"))
 		}
+		if ph == inductionPhi(b) {
+			// starts at 0 and is only incremented
+			c.assert(implies(fr.pc, "(>= "+fr.vals[ph]+" 0)"))
+		}
 	}
 	// alloc only grows
 	if al, ok := fr.st.comps["alloc"]; ok {
@@ -628,6 +632,12 @@ func (fr *Frame) instr(in ssa.Instruction) bool {
 	case *ssa.MakeChan:
 		fr.vals[x] = fr.allocRef(x.Name())
 		fr.nonNil[x] = true
+		if _, ok := c.P.Specs.Pures["ctxChan"]; ok {
+			// a channel made by module code is not the Done channel of any context (those are made
+			// inside package context and never handed out for sending)
+			c.assert(implies(fr.pc, "(not (pure_ctxChan "+fr.vals[x]+"))"))
+			c.assumed["a channel created by make in module code is not the Done channel of a context"] = true
+		}
 	case *ssa.MakeClosure:
 		r := fr.allocRef(x.Name())
 		fr.vals[x] = r
